@@ -250,6 +250,7 @@ func runC08(e *Env) {
 		})
 		e.R.AddPart(ev.Part{Name: "wide-chords-x-tracks", Enumerated: fmt.Sprintf("user chords of 1, 16, 17, 32, 33 and %d tones x N in {1,2,3,16,17,32,33,40,256}, in-process and real binary", wideMax), Executions: int64(len(wjobs)), Exhaustive: true})
 	}
+	runYAMLForms(e, "C08")
 	runLong(e, 16, func(c *playCase) {
 		for _, n := range []int{1, 3} {
 			cc := *c
